@@ -273,6 +273,7 @@ func AssembleFile(ctx context.Context, name string, idx Index, s Store, seeds []
 	var interrupted bool
 loop:
 	for _, segment := range plan {
+		verifYield("AssembleFile.feed")
 		select {
 		case <-ctx.Done():
 			interrupted = true
